@@ -174,6 +174,9 @@ def install_partitions(I):
     for f in ('util::date::convert::date_to_days', 'util::date::convert::year_doy_to_days'):
         I.return_partition[f] = by_result
     I.return_partition['util::date::convert::days_to_doy'] = lambda I, st, v: None
+    I.return_partition['util::parse::parse_format_string'] = lambda I, st, v: None
+    for f in ('cron::parse_value', '<cron::Month as std::str::FromStr>::from_str', '<cron::DayOfWeek as std::str::FromStr>::from_str'):
+        I.return_partition[f] = by_result
     I.return_partition['util::date::convert::days_to_wyear'] = lambda I, st, v: None
 
 
